@@ -38,10 +38,20 @@ func (e *Enc) freshResults(cur *cursor, sig *types.Signature, prefix string) []s
 		t := sig.Results().At(i).Type()
 		f := e.fresh(prefix, e.m.sortOf(t))
 		e.assume(cur.guard, e.typeAssume(cur.st, f, t))
-		if e.tinvName(t) != "" {
-			e.assume(cur.guard, e.tinvTerm(cur.st, f, t))
-		}
 		rs = append(rs, f)
+	}
+	n := sig.Results().Len()
+	for i := 0; i < n; i++ {
+		t := sig.Results().At(i).Type()
+		if !e.hasTinv(t) {
+			continue
+		}
+		inv := e.tinvTerm(cur.st, rs[i], t)
+		// Go convention: with a non-nil trailing error the other results are not meaningful
+		if i < n-1 && e.m.sortOf(sig.Results().At(n-1).Type()) == "Any" {
+			inv = fmt.Sprintf("(=> (= %s ANil) %s)", rs[n-1], inv)
+		}
+		e.assume(cur.guard, inv)
 	}
 	return rs
 }
@@ -180,6 +190,8 @@ func (e *Enc) havocCall(cur *cursor, v ssa.Value, callee *ssa.Function, sig *typ
 func (e *Enc) dynamicCall(cur *cursor, v ssa.Value, c *ssa.CallCommon, args []Val, pos token.Pos) {
 	sig := c.Signature()
 	fv := e.asTerm(e.value(cur.fc, c.Value))
+	e.thisfn = fv
+	defer func() { e.thisfn = "" }()
 	e.safety(cur, "nil", fmt.Sprintf("(not (= %s FNil))", fv), pos, "call of nil function value")
 	// function-type contract by role: looked up by the field / variable the value was loaded from
 	role := e.funcRole(c.Value)
@@ -394,6 +406,11 @@ func (e *Enc) calleeCtx(cur *cursor, callee *ssa.Function, sig *types.Signature,
 		pkg = e.pkgOf(callee)
 	}
 	sc := &specCtx{e: e, st: post, old: pre, guard: cur.guard, vars: map[string]SV{}, oldVars: map[string]SV{}, pkg: pkg}
+	if e.thisfn != "" {
+		sc.vars["$thisfn"] = SV{T: e.thisfn, Ty: sig}
+	} else if callee != nil {
+		sc.vars["$thisfn"] = SV{T: e.fnRef(callee), Ty: sig}
+	}
 	names := paramNames(callee, sig)
 	var ptypes []types.Type
 	if callee != nil {
@@ -462,7 +479,7 @@ func (e *Enc) applyContractSig(cur *cursor, v ssa.Value, name string, callee *ss
 			}
 		}
 		for i, pt := range ptypes {
-			if i < len(args) && e.tinvName(pt) != "" && args[i].K == vTerm {
+			if i < len(args) && e.hasTinv(pt) && args[i].K == vTerm {
 				e.oblige(cur.guard, "tinv", fmt.Sprintf("%s%s#%d.arg%d", cur.fc.tag, name, k, i), e.tinvTerm(pre, args[i].T, pt), []string{"C01"}, pos, "type invariant of by-value argument")
 			}
 		}
@@ -893,7 +910,7 @@ func (m *Model) verifyFunc(name string, ct *Contract) (*Enc, error) {
 		fc.vals[p] = v
 		fc.params = append(fc.params, v)
 		e.assume("true", e.typeAssume(st, c, p.Type()))
-		if e.tinvName(p.Type()) != "" {
+		if e.hasTinv(p.Type()) {
 			e.assume("true", e.tinvTerm(st, c, p.Type()))
 		}
 	}
@@ -921,9 +938,15 @@ func (m *Model) verifyFunc(name string, ct *Contract) (*Enc, error) {
 			rs = append(rs, e.asTerm(v))
 		}
 		e.smoke(r.guard, fmt.Sprintf("ret%d", k))
+		nres := fn.Signature.Results().Len()
 		for i, v := range r.vals {
-			if rt := fn.Signature.Results().At(i).Type(); e.tinvName(rt) != "" {
-				e.oblige(r.guard, "tinv", fmt.Sprintf("result%d@ret%d", i, k), e.tinvTerm(r.st, e.asTerm(v), rt), []string{"C01"}, fn.Pos(), "type invariant of by-value result")
+			if rt := fn.Signature.Results().At(i).Type(); e.hasTinv(rt) {
+				goal := e.tinvTerm(r.st, e.asTerm(v), rt)
+				// Go convention: when the trailing error result is non-nil the other results are not meaningful
+				if i < nres-1 && e.m.sortOf(fn.Signature.Results().At(nres-1).Type()) == "Any" {
+					goal = fmt.Sprintf("(=> (= %s ANil) %s)", e.asTerm(r.vals[nres-1]), goal)
+				}
+				e.oblige(r.guard, "tinv", fmt.Sprintf("result%d@ret%d", i, k), goal, []string{"C01"}, fn.Pos(), "type invariant of by-value result")
 			}
 		}
 		for _, en := range ct.Ensures {
@@ -946,6 +969,7 @@ func (m *Model) verifyFunc(name string, ct *Contract) (*Enc, error) {
 // specCtxPost: names are parameters (entry values) and results.
 func (e *Enc) specCtxPost(fc *fctx, st *State, guard string, results []string) *specCtx {
 	sc := &specCtx{e: e, st: st, old: fc.entrySt, guard: guard, vars: map[string]SV{}, oldVars: map[string]SV{}, fc: fc, pkg: e.pkgOf(fc.fn)}
+	sc.vars["$thisfn"] = SV{T: e.fnRef(fc.fn), Ty: fc.fn.Signature}
 	for i, p := range fc.fn.Params {
 		sv := SV{T: e.asTermQuiet(fc.params[i]), Ty: p.Type()}
 		sc.vars[p.Name()] = sv
